@@ -65,6 +65,9 @@ THEOREMS = [
     "Verif.C17.removeInRect_spec",
     "Verif.C17.file_roundtrip",
     "Verif.C17.file_roundtrip_spec",
+    "Verif.C17.fmt6e_idempotent",
+    "Verif.C17.fmt6e_accurate",
+    "Verif.C17.roundtrip_twice",
 ]
 RULE = (
     "corpus (F4: one single-node track, three delimiters; F8: kbp-calibrated and uncalibrated kymograph saved with "
@@ -398,7 +401,7 @@ def impl(case):
     kind = case["kind"]
     if kind == "fmt":
         return [enc_rat(Fraction("%.6e" % float(case["x"])))]
-    n_answers = 4 if kind == "rt" else 1
+    n_answers = 5 if kind == "rt" else 1
     prep = prepare(case)
     if "unreachable" in prep:
         return [with_aux(UNREACHABLE, {"why": prep["unreachable"]})] * n_answers
@@ -422,7 +425,7 @@ def _impl(case, partial):
         try:
             prep["group"].save(path, delimiter=case["delim"], sampling_width=case["sw"], correct_origin=case["co"])
         except Exception as e:
-            return [errname(e)] * 4
+            return [errname(e)] * 5
         text = open(path).read()
         parsed = parse_csv_text(text, case["delim"])
         if "bad" in parsed:
@@ -439,7 +442,20 @@ def _impl(case, partial):
             a2 = "IOError" if isinstance(e, OSError) else errname(e)
         # a3: the column titles of the real file; a4: the import again, compared with the model's route through titles
         a3 = "bad-file" if "bad" in parsed else enc_titles(parsed["titles"])
-        return [a1, a2, a3, a2]
+        # a5: composition — the re-imported group saved and imported once more (roundtrip_twice)
+        a5 = a2
+        if not a2.endswith("Error"):
+            try:
+                path2 = os.path.join(_TMP, "rt2.csv")
+                g2.save(path2, delimiter=case["delim"], sampling_width=case["sw"], correct_origin=case["co"])
+                g3 = kymotrack.import_kymotrackgroup_from_csv(path2, prep["kymo"], "red", delimiter=case["delim"])
+                st3 = B.group_state(g3)
+                a5 = with_aux(enc_group(st3), {"state": state_json(st3), "first": state_json(st)})
+            except B.Unreachable:
+                raise
+            except Exception as e:
+                a5 = "IOError" if isinstance(e, OSError) else errname(e)
+        return [a1, a2, a3, a2, a5]
     if kind == "read":
         prep = prepare(case)
         path = os.path.join(_TMP, "read.csv")
@@ -579,7 +595,7 @@ def ops(case):
         return ["c17.fmt6 " + enc_rat(float(case["x"]))]
     prep = prepare(case)
     if "unreachable" in prep:
-        return ["c17.fmt6 0/1"] * (4 if kind == "rt" else 1)  # filler: the answers of a skipped case are never compared
+        return ["c17.fmt6 0/1"] * (5 if kind == "rt" else 1)  # filler: the answers of a skipped case are never compared
     info = prep["info"]
     ky = enc_kymo(info)
     if kind == "rt":
@@ -588,7 +604,8 @@ def ops(case):
         g = enc_group(prep["state0"])
         all_md = "T" if all(tr["min_duration"] is not None for tr in prep["state0"]) else "F"
         return [f"c17.export {ky} {smp} {img} {g}", f"c17.roundtrip {ky} {smp} {img} {g}",
-                f"c17.titles {info['unit']} {smp} {all_md}", f"c17.fileroundtrip {ky} {info['unit']} {smp} {img} {g}"]
+                f"c17.titles {info['unit']} {smp} {all_md}", f"c17.fileroundtrip {ky} {info['unit']} {smp} {img} {g}",
+                f"c17.roundtrip2 {ky} {smp} {img} {g}"]
     if kind == "hdr":
         rows = "[" + ";".join(",".join(enc_rat(float("%.18e" % x)) for x in r) for r in case["cells"]) + "]"
         v = "N" if case["version"] is None else str(case["version"])
@@ -718,7 +735,7 @@ def window_sum(image, t, c, w, correct_origin):
 def oracle(case, ia):
     kind = case["kind"]
     if kind == "fmt":
-        return None
+        return oracle_fmt(case, ia)
     if kind == "prog":
         bad = oracle_plus(case, ia)
         if bad:
@@ -742,7 +759,37 @@ def oracle(case, ia):
     return None
 
 
+def oracle_fmt(case, ia):
+    """'%.6e': seven significant digits of the value (half a unit of the seventh), printing the printed value changes nothing"""
+    x = Fraction(float(case["x"]))
+    v = _rat(split_aux(ia[0])[0])
+    if abs(v - x) > abs(x) * Fraction(1, 2000000):
+        return f"six-decimals: {float(case['x'])!r} printed as {float(v)!r}: more than half a unit of the seventh digit away"
+    if Fraction("%.6e" % float(v)) != v:
+        return f"six-decimals: printing the printed value {float(v)!r} again gives {'%.6e' % float(v)}"
+    return None
+
+
 def oracle_rt(case, ia):
+    bad = _oracle_rt(case, ia)
+    if bad or len(ia) < 5:
+        return bad
+    a2, aux2 = split_aux(ia[1])
+    a5, aux5 = split_aux(ia[4])
+    if a2.endswith("Error") or not case["tracks"]:
+        return None
+    if a5.endswith("Error"):
+        return f"second-round-trip: the re-imported group could not be saved and imported again: {a5}"
+    first, again = aux5["first"], aux5["state"]
+    if len(first) != len(again):
+        return f"second-round-trip: {len(again)} tracks after saving the re-imported group, {len(first)} before"
+    for k, (x, y) in enumerate(zip(first, again)):
+        if not same_track(x, y, 1e-15):
+            return f"second-round-trip: track {k} changed when the re-imported group was saved and imported again (lines {y['t'][:8]}, minimum duration {x['md']!r} -> {y['md']!r}, counts {y['counts'] and y['counts'][:6]})"
+    return None
+
+
+def _oracle_rt(case, ia):
     tracks = case["tracks"]
     a1, aux1 = split_aux(ia[0])
     a2, aux2 = split_aux(ia[1])
